@@ -271,6 +271,10 @@ func (c *CheckCtx) checkFormatter(kinds []kindInfo) {
 		}
 		site := c.W.pos(f.Methods[k.Name].Pos())
 		var canonBad, frameBad, lexBad, nilBad []string
+		tn := k.Name // the struct's type name (the visitor method of a few kinds is named differently)
+		if k.Named != nil {
+			tn = k.Named.Obj().Name()
+		}
 		for _, p := range paths {
 			last := map[string]string{}
 			pc := p.condString()
@@ -282,10 +286,10 @@ func (c *CheckCtx) checkFormatter(kinds []kindInfo) {
 				if s := k.slot(slot); s == nil || s.Class != "vertex" {
 					continue
 				}
-				if why, can := maybeNil[k.Name+"."+slot]; can && !pathSaysNonNil(p, slot) {
-					nilBad = append(nilBad, fmt.Sprintf("n.%s.Accept(f) is called without a nil test, but a parsed tree can have %s.%s == nil (%s) [%s]", slot, k.Name, slot, why, pc))
-				} else if why2, can2 := allMaybe[k.Name+"."+slot]; !can && can2 && !pathSaysNonNil(p, slot) && !carrierOnly[k.Name+"."+slot] {
-					carrierStates[k.Name+"."+slot] = why2
+				if why, can := maybeNil[tn+"."+slot]; can && !pathSaysNonNil(p, slot) {
+					nilBad = append(nilBad, fmt.Sprintf("n.%s.Accept(f) is called without a nil test, but a parsed tree can have %s.%s == nil (%s) [%s]", slot, tn, slot, why, pc))
+				} else if why2, can2 := allMaybe[tn+"."+slot]; !can && can2 && !pathSaysNonNil(p, slot) && !carrierOnly[tn+"."+slot] {
+					carrierStates[tn+"."+slot] = why2
 				}
 			}
 			for _, e := range p.Events {
@@ -330,7 +334,7 @@ func (c *CheckCtx) checkFormatter(kinds []kindInfo) {
 					// companion token of an absent child (pairing read off the printer's conditional default): accepted only
 					// if no grammar action embeds a node of this kind with the token present and the child possibly absent
 					pairingUsed = true
-					if why, broken := tokNoChild[k.Name+"."+s.Name+"|"+pairedWith[k.Name][s.Name]]; broken && !carrierOnly[k.Name+"."+s.Name] {
+					if why, broken := tokNoChild[tn+"."+s.Name+"|"+pairedWith[k.Name][s.Name]]; broken && !carrierOnly[tn+"."+s.Name] {
 						canonBad = append(canonBad, fmt.Sprintf("%s is left as parsed when %s is absent, but a parsed tree can have the token without the child (%s) [%s]", s.Name, pairedWith[k.Name][s.Name], why, pc))
 					}
 				case !ok:
